@@ -1413,7 +1413,7 @@ def c09(ctx):
     ctx.cov["graphs_replayed"] = len(graphs)
     # program level: every configuration computes the same function
     cases = mpcl_cases(ctx, "mpcl-gen-c09", "{3, 6, 8}", 5, 1500 if thorough else 150,
-                       kinds='{"const", "lit", "bin", "cmp", "logic", "neg", "shift", "cast", "if", "ifnest", "loop", "call"}',
+                       kinds='{"const", "lit", "bin", "cmp", "logic", "neg", "shift", "cast", "if", "ifnest", "ifret", "loop", "loopret", "call"}',
                        limit=1000 if thorough else 70)
     cases += mpcl_cases(ctx, "mpcl-gen-c09w", "{4, 7, 13}", 4, 600 if thorough else 60, kinds='{"bin", "lit", "cmp", "cast", "if", "shift"}',
                         limit=400 if thorough else 30)
@@ -1423,8 +1423,8 @@ def c09(ctx):
     ctx.run_vh(["c09", "programs", cf, rf], timeout=4 * 3600 if thorough else 3400)
     ctx.absorb(rf)
     ctx.cov["rule"] = ("one evaluation = one gate graph compiled under {prune on/off} x {Yao, GMW} and compared on every input with the "
-                       "original graph's truth table, or one program compiled under 16 configurations ({prune} x {multiplier thresholds 0, 8, 16, "
-                       "21, 64} x {Yao, GMW}, plus diagnostics and all listings switched on) and compared on every input (<= 12/16 input bits) or 64 vectors; non-trivial = >= 2 gates / >= 3 statements")
+                       "original graph's truth table, or one program compiled under 17 configurations ({prune} x {multiplier thresholds 0, 8, 16, "
+                       "21, 64} x {Yao, GMW}, plus diagnostics and all listings switched on, and all warnings switched off) and compared on every input (<= 12/16 input bits) or 64 vectors; non-trivial = >= 2 gates / >= 3 statements")
     ctx.check_drift()
 
 
